@@ -59,6 +59,8 @@ M = [
      "            model.field_l[k] = fm\n            model.name_elems()", "            pass", ["C04"]),
     ("bounds_use_blocks_of_nonrandom_objects", "src/vsc/visitors/variable_bound_visitor.py",
      "            self._in_use = in_use and f.is_declared_rand and f.rand_mode", "            self._in_use = in_use", ["C17"]),
+    ("foreach_condition_uses_last_mask_element", "src/vsc/visitors/x_expr_evaluator.py",
+     "                if idx >= 0 and idx < len(field.field_l):\n                    field.field_l[idx].accept(self)", "                if True:\n                    field.accept(self)", ["C04"]),
     ("ult_to_slt", "src/vsc/model/expr_bin_model.py",
      "ret = btor.Ult(lhs_n, rhs_n)", "ret = btor.Slt(lhs_n, rhs_n)", ["C01"]),
     ("uext_to_sext", "src/vsc/model/expr_bin_model.py",
